@@ -146,3 +146,94 @@ func init() {
 		}
 	})
 }
+
+// many callers at once on a single-request client (HTTP: parallel connections; custom transport): every call returns its
+// own result exactly once. With a request header given, as applications that authenticate do.
+func scenSingleMany(transport string, n int, withHeader bool) *connRun {
+	params := map[string]interface{}{"transport": transport, "concurrent_callers": n, "request_header": withHeader}
+	h := &hsEcho{}
+	srv := jsonrpc.NewServer()
+	srv.Register("C", h)
+	ts := httptest.NewServer(srv)
+	defer func() { ts.CloseClientConnections(); go ts.Close() }()
+	var cl struct {
+		Echo func(ctx context.Context, token int) (int, error)
+	}
+	var closer jsonrpc.ClientCloser
+	var err error
+	if transport == "custom" {
+		closer, err = jsonrpc.NewCustomClient("C", []interface{}{&cl}, func(ctx context.Context, body []byte) (io.ReadCloser, error) {
+			var buf bytes.Buffer
+			srv.HandleRequest(ctx, bytes.NewReader(body), &buf)
+			return io.NopCloser(&buf), nil
+		})
+	} else {
+		var hdr http.Header
+		if withHeader {
+			hdr = http.Header{"Authorization": []string{"Bearer x"}, "X-Trace": []string{"a", "b"}}
+		}
+		closer, err = jsonrpc.NewMergeClient(context.Background(), ts.URL, "C", []interface{}{&cl}, hdr)
+	}
+	if err != nil {
+		panic(err)
+	}
+	defer closer()
+	run := &connRun{Scenario: "swap", Params: params, AllDone: true, CloserOK: true, Events: []tev{}}
+	var wg sync.WaitGroup
+	start := make(chan struct{})
+	recs := make([]*callRec, n)
+	for k := 0; k < n; k++ {
+		rec := &callRec{Token: k + 1, Kind: "echo", Outcome: "pending"}
+		recs[k] = rec
+		run.Calls = append(run.Calls, rec)
+		wg.Add(1)
+		go func(rec *callRec) {
+			defer wg.Done()
+			<-start
+			for rep := 0; rep < 8; rep++ {
+				v, e := cl.Echo(context.Background(), rec.Token)
+				switch {
+				case e == nil && v == rec.Token:
+					rec.Outcome = "ok"
+				case e == nil:
+					rec.Outcome = fmt.Sprintf("foreign:%d", v)
+					return
+				default:
+					rec.Outcome = "other:" + e.Error()
+					return
+				}
+			}
+			rec.Returned = true
+			rec.Returns = 1
+			rec.Execs = 1
+		}(rec)
+	}
+	close(start)
+	done := make(chan struct{})
+	go func() { wg.Wait(); close(done) }()
+	select {
+	case <-done:
+	case <-time.After(20 * time.Second):
+		run.AllDone = false
+	}
+	for _, rec := range recs {
+		if run.Oracle == "" && rec.Outcome != "ok" {
+			run.Oracle = fmt.Sprintf("%d callers at once over %s: call %d ended as %q instead of its own result", n, transport, rec.Token, rec.Outcome)
+		}
+	}
+	return run
+}
+
+type hsEcho struct{}
+
+func (hsEcho) Echo(ctx context.Context, token int) (int, error) { return token, nil }
+
+func init() {
+	connExtra = append(connExtra, func(which string, seed uint64, tier string) {
+		if which == "all" || which == "perm" {
+			emit(scenSingleMany("http", 32, true))
+			emit(scenSingleMany("http", 32, false))
+			emit(scenSingleMany("custom", 32, false))
+		}
+	})
+}
